@@ -539,6 +539,11 @@ class FromKafkaBatched(Source):
             else:
                 self.npartitions = len(kafka_cluster_metadata.topics[self.topic].partitions)
         self.positions = [0] * self.npartitions
+        # partitions that still have to be placed at the end of the log; the
+        # shared configuration is switched to 'earliest' after the first cycle
+        reset_latest = set()
+        if self.consumer_params.get('auto.offset.reset') == 'latest':
+            reset_latest.update(range(self.npartitions))
 
         tps = []
         for partition in range(self.npartitions):
@@ -575,9 +580,9 @@ class FromKafkaBatched(Source):
                 except (RuntimeError, ck.KafkaException):
                     continue
                 self.started = True
-                if 'auto.offset.reset' in self.consumer_params.keys():
-                    if self.consumer_params['auto.offset.reset'] == 'latest' and \
-                            self.positions[partition] == -1001:
+                if partition in reset_latest:
+                    reset_latest.discard(partition)
+                    if self.positions[partition] == -1001:
                         self.positions[partition] = high
                 current_position = self.positions[partition]
                 lowest = max(current_position, low)
